@@ -23,6 +23,27 @@ CHECKS = {
           "Trusted: the harness's hostile-construct scanner and CSS escape decoder. Vocabulary pool is extracted from css/handlers.go's string literals at check time plus a fixed list of numeric/functional forms."),
  "C19": e1("DESIGN.md §4 C19", "Per exported matcher: all strings up to length 4-6 over its own alphabet plus 11 HTML-significant characters, and all single and double edits of every documented example (82M strings); a match must be accepted by a hand-written recogniser of the documented form, and every documented example must match.",
           "Trusted: the recognisers in internal/checks/c19.go."),
+ "C08": ("model_checking", "explicit-state breadth-first search over states of the real token loop (loop locals read through a build overlay + input element stack), transitions = tokens of a well-nested grammar, per-transition oracle", "E2", "DESIGN.md §4 C08",
+         "Reachability closure of the real sanitiser's token-loop state under 14 policies for every well-nested document over a 16-form element grammar with nesting depth <=4 and any length (2.1M states, 23M transitions in quick): text inside a disallowed skip-content element never appears, markup inside it produces no output, text outside appears once and unchanged.",
+         "Trusted: the overlay instrumenter (harness/cmd/instrument) locating the token loop and dumping its locals; state equality (same locals + same open-element stack => same future) holds because the loop's future depends on nothing else except the immutable policy. If the loop cannot be located the check degrades to bounded enumeration and says exhaustive:false."),
+ "C09": ("model_checking", "explicit-state breadth-first search over states of the real token loop (same search as C08), stack-balance monitor on the re-tokenised output in every state", "E2", "DESIGN.md §4 C09",
+         "Same state space as C08; in every reached state the re-tokenised output never closes an element that is not the innermost open one, never has more open elements than the input, and is fully closed whenever the input document is complete.",
+         "As C08. Void elements per the HTML list; self-closing tokens are leaves."),
+ "C13": ("model_checking", "stateless model checking under a cooperative scheduler with iterative preemption bounding + exhaustive map-iteration-order choices; separate free-running race-detector pass", "E3", "DESIGN.md §4 C13",
+         "All interleavings with <=2 preemptions of two goroutines sanitising on one shared policy (scheduling point before every statement of the package), all map-range orders within 2 deviations from sorted order, alone and combined with a preemption (0.5M executions in quick); every call must return the sequential result and the deep snapshot of the policy and of all package-level variables must not change. The data-race clause is decided by Go's race detector on a free-running build of the same bodies.",
+         "Trusted: the overlay (scheduling points, map-range rewriting, reflective snapshot); sequentially consistent interleaving at statement granularity; the race detector for unsynchronised accesses (outside the model-checking family, stated in DESIGN.md)."),
+ "C14": ("model_checking", "bounded-exhaustive enumeration for absence of panics on all four entry points + step-bounded execution (overlay step counter, cubic budget) of size-parameterised input families", "E5", "DESIGN.md §4 C14",
+         "Every byte string <=4 over 22 bytes and every fragment sequence <=2 through all four entry points on an everything-on policy; every default CSS handler x its own vocabulary x separators x terminators x sizes up to 48 components and 35 HTML families up to n=256 executed under a budget of 16*(len+16)^3 instrumented steps. No wall-clock oracle.",
+         "Trusted: step counting by the overlay (statements of bluemonday, function entries and loop iterations of css); work inside regexp / douceur / x/net/html is not counted. Polynomial bound established for the listed sizes, not asymptotically."),
+ "C15": ("fault_enumeration", "exhaustive enumeration of reader chunkings (all subsets of split points for short inputs), zero-length reads, EOF-with-data, writer kinds; differential oracle across the four entry points and the built cmd tools", "E4", "DESIGN.md §4 C15",
+         "58M environment runs in quick: every input of <=2 fragments (and a core of 3) under every chunking (2^(n-1) for n<=8, <=2 split points beyond) x zero-length reads x EOF delivered with data x both writer kinds must give exactly Sanitize's bytes; blank inputs and the caller's buffer are checked; both cmd binaries are built from /repo and compared with the library on 1.6k stdin documents.",
+         "Trusted: the harness reader/writer doubles; the harness's reconstruction of the two documented cmd policies."),
+ "C16": ("fault_enumeration", "exhaustive fault injection at the io.Reader / io.Writer seam: every write index x 3 fault kinds x 2 writer kinds, every read offset x 6 error kinds", "E4", "DESIGN.md §4 C16",
+         "For every input of <=2 fragments (core of 3) and 7 policies, the fault-free write sequence is recorded and every single write is failed (transient, permanent, partial) for both writer kinds; the reader is failed at every byte offset with six error values. Error must be returned, no write may follow the failure, accepted bytes must be a prefix of the fault-free output, SanitizeReader must return an empty buffer.",
+         "Trusted: the fault-injecting doubles. Faults are injected only through the exported API."),
+ "C17": ("model_checking", "explicit-state search over builder-call histories with an abstract rule-set state (reference model) and conformance of every history against the implementation by probe-output vectors", "E6", "DESIGN.md §4 C17",
+         "Every history of <=3 calls over a 49-call alphabet (124k histories, 11k abstract states) is executed on a fresh real policy; all histories reaching one abstract state must agree byte for byte on 46 probe documents. Instances: in a pristine process, after each call on a scratch instance a fresh and an earlier instance must be unaffected (3 bases), plus interleaved construction of two instances.",
+         "Trusted: the reference model (internal/spec ViewOf + Canon); probe documents distinguish the behaviours of interest."),
  "C20": e1("DESIGN.md §4 C20", "Fragment sequences (<=3 over F, <=4 core), URL strings in three positions, link attribute lists <=3, against every policy of the family inside the property's class plus Strict and UGC (with the del/ins proviso): Sanitize(Sanitize(x)) == Sanitize(x). One known finding (rel/target order) is listed in known_findings.jsonl."),
 }
 
@@ -42,7 +63,7 @@ for i in ids:
         "level_note": note,
         "technique": tech,
     })
-na = [{"property_id": i, "reason": "check not built yet at this revision (work in progress; see DESIGN.md §4 for the planned model-checking engine)"} for i in ids if i not in CHECKS]
+na = [{"property_id": i, "reason": "no check at this revision"} for i in ids if i not in CHECKS]
 m = {
  "version": 1,
  "setup_cmd": "bin/setup",
@@ -55,6 +76,12 @@ m = {
  },
  "engines": [
    {"name": "E1", "path": "harness/internal/checks", "serves_properties": [i for i in ids if i in CHECKS and CHECKS[i][2]=="E1"], "kind_free_text": "stateless bounded-exhaustive sequence enumerator over fragment/byte alphabets x policy family, sharded by input hash over 16 worker processes"},
+   {"name": "E2", "path": "harness/internal/checks/e2.go", "serves_properties": ["C08", "C09"], "kind_free_text": "explicit-state BFS over the real token loop's states (overlay hook dumps loop locals), successors by re-running the real Sanitize on path+token"},
+   {"name": "E3", "path": "harness/internal/checks/e3.go", "serves_properties": ["C13"], "kind_free_text": "cooperative scheduler + preemption-bounded DFS over interleavings and map-iteration orders of the instrumented implementation; free-running -race pass"},
+   {"name": "E4", "path": "harness/internal/checks/e4.go", "serves_properties": ["C15", "C16"], "kind_free_text": "environment and fault enumerator at the io.Reader / io.Writer seam"},
+   {"name": "E5", "path": "harness/internal/checks/c14.go", "serves_properties": ["C14"], "kind_free_text": "step-bounded execution with an overlay step counter"},
+   {"name": "E6", "path": "harness/internal/checks/c17.go", "serves_properties": ["C17"], "kind_free_text": "builder-history explorer with abstract rule-set states and conformance replay"},
+   {"name": "instrument", "path": "harness/cmd/instrument", "serves_properties": ["C08", "C09", "C13", "C14"], "kind_free_text": "AST rewriter (go/parser + go/types) generating a go build -overlay from /repo's working tree: VerifPoint before every statement, token-loop state hook, map-range order hook, reflective snapshot"},
  ],
  "checks": checks,
  "not_applicable": na,
